@@ -36,6 +36,16 @@ type Val struct {
 	Elem  types.Type // slice / pointer element type
 	Lit   *closureLit
 	Inner *Val // statically boxed concrete value (spec evaluation only); T is its dynamic type
+	// Cases: when the value is the merged result of an inlined helper with several returns, the
+	// value of each return path with the path condition it was returned under.  Call-site
+	// obligations (callpre) are then generated per case instead of on the merged ite-term, so that
+	// extracting a switch into a helper does not change what has to be proved.
+	Cases []valCase
+}
+
+type valCase struct {
+	cond string
+	v    Val
 }
 
 func (k Kind) sort() string {
